@@ -4,7 +4,8 @@
 # worktree of /repo's HEAD, the library is built from there into build/try_<variant>, and the check writes to a scratch VERIF_DIR.
 # (Equivalent to `git -C /repo apply`, `./check`, `git -C /repo checkout -- .`, but safe while background runs use /repo.)
 name="$1"; prop="$2"; shift 2
-wt=/tmp/wt_try_$$; vd=/tmp/vd_try_$$
+wt=/tmp/wt_try; vd=/tmp/vd_try_$$
+git -C /repo worktree remove --force "$wt" > /dev/null 2>&1; rm -rf "$wt"
 git -C /repo worktree add --detach "$wt" HEAD > /dev/null 2>&1 || { echo "cannot create worktree"; exit 2; }
 cleanup() { git -C /repo worktree remove --force "$wt" > /dev/null 2>&1; rm -rf "$vd"; }
 trap cleanup EXIT
